@@ -8,8 +8,8 @@ CONSTANTS
   MaxLen = 7
   MemoBug = FALSE
   SharedOutBug = FALSE
-  InPlaceBug = TRUE
-  LazyCtorBug = FALSE
+  InPlaceBug = FALSE
+  LazyCtorBug = TRUE
 VIEW View
 INVARIANT ResultFromCurrentContent
 INVARIANT ResultsStable
